@@ -770,6 +770,10 @@ func runREC(w *World, r *Result, only func(rel string) bool) int {
 			}
 		}
 		if len(cut) > 0 && acyclicWithout(scc, cut) {
+			if why := cacheNotThreaded(g, scc); why != "" {
+				r.bad("REC-memo", scc[0].name, "SCC{"+label+"}", pos, why)
+				continue
+			}
 			var cn []string
 			for n := range cut {
 				cn = append(cn, n.name)
@@ -930,4 +934,53 @@ func (g *recGraph) typeArgDescent(scc []*recNode) bool {
 		}
 	}
 	return true
+}
+
+// cacheNotThreaded: the memo guard only cuts the recursion if the whole cycle works on ONE cache. Every call
+// between two functions of the SCC that passes a generator.Cache must pass the caller's own Cache parameter, and
+// no function of the SCC creates a cache (make(gen.Cache), a literal) of its own.
+func cacheNotThreaded(g *recGraph, scc []*recNode) string {
+	isCache := func(t types.Type) bool {
+		return t != nil && strings.HasSuffix(t.String(), "generator.Cache")
+	}
+	for _, n := range scc {
+		info := n.fi.Pkg.TypesInfo
+		why := ""
+		ast.Inspect(n.body, func(x ast.Node) bool {
+			switch v := x.(type) {
+			case *ast.CallExpr:
+				if isBuiltinCall(info, v, "make") && len(v.Args) >= 1 && isCache(info.TypeOf(v.Args[0])) {
+					why = n.name + " creates a fresh generator.Cache at " + g.w.Pos(v.Pos()) + " inside the recursive cycle: the types already visited on the way down are forgotten, so a recursive type (a union that contains itself) is generated again and again until the stack overflows"
+				}
+				fn := calleeOf(info, v)
+				if fn == nil {
+					return true
+				}
+				t := g.byFn[fn]
+				in := false
+				for _, m := range scc {
+					if m == t && t != nil {
+						in = true
+					}
+				}
+				if !in {
+					return true
+				}
+				for _, a := range v.Args {
+					if isCache(info.TypeOf(a)) && !isParamExpr(n, info, a) {
+						why = n.name + " calls " + t.name + " at " + g.w.Pos(v.Pos()) + " with a cache (" + es(a) + ") that is not its own parameter: the cycle does not work on one cache, so the memo guard does not cut it"
+					}
+				}
+			case *ast.CompositeLit:
+				if isCache(info.TypeOf(v)) {
+					why = n.name + " creates a fresh generator.Cache at " + g.w.Pos(v.Pos()) + " inside the recursive cycle"
+				}
+			}
+			return true
+		})
+		if why != "" {
+			return why
+		}
+	}
+	return ""
 }
